@@ -305,6 +305,156 @@ def analyse(repo, cons, fi, pname, deep=False):
     return events, [worst]
 
 
+DATA_LIKE = ('param', 'derived', 'lazyres', 'lazy')
+
+
+def _none_tests(fn_node, name):
+    """Tests that read local `name` as "nothing yet": `name is None`,
+    `name is not None`."""
+    out = []
+    for c in model.walk_shallow(fn_node):
+        if isinstance(c, ast.Compare) and isinstance(
+                c.left, ast.Name) and c.left.id == name and len(
+                c.ops) == 1 and isinstance(
+                c.ops[0], (ast.Is, ast.IsNot)) and isinstance(
+                c.comparators[0], ast.Constant) and \
+                c.comparators[0].value is None:
+            out.append(c)
+    return out
+
+
+def none_sentinel_sites(uni, fi):
+    """Locals that start as None, are later bound to a value of the
+    evaluation (an element, a lambda result, an argument) and are asked
+    `is None` to find out whether that has happened yet: null is a value of
+    the language, so a null element / null lambda result reads as "nothing
+    yet"."""
+    inits, later = {}, {}
+    params = set(fi.params())
+    for st in model.walk_shallow(fi.node):
+        tgts = []
+        if isinstance(st, ast.Assign):
+            tgts = [t for t in st.targets if isinstance(t, ast.Name)]
+            val = st.value
+        else:
+            continue
+        for t in tgts:
+            if t.id in params:
+                continue
+            if isinstance(val, ast.Constant) and val.value is None:
+                inits.setdefault(t.id, []).append(st)
+            else:
+                later.setdefault(t.id, []).append(st)
+    out = []
+    env = None
+    for name in inits:
+        if name not in later:
+            continue
+        tests = _none_tests(fi.node, name)
+        if not tests:
+            continue
+        env = env or uni.env(fi)
+        for st in later[name]:
+            v = env.ev(st.value)
+            if any(t[0] in DATA_LIKE for t in v.tags):
+                out.append((name, st, tests[0]))
+                break
+    return out
+
+
+def lookup_default_sites(uni, fi):
+    """`m.get(k)` / `m.get(k, None)` / `m.pop(k, None)` on a mapping of
+    argument values, compared with None: a keyword whose value is null
+    reads as an absent keyword."""
+    out = []
+    env = None
+    for c in model.walk_shallow(fi.node):
+        if not (isinstance(c, ast.Call) and isinstance(
+                c.func, ast.Attribute) and c.func.attr in ('get', 'pop')):
+            continue
+        if not c.args or len(c.args) > 2:
+            continue
+        if len(c.args) == 2 and not (isinstance(
+                c.args[1], ast.Constant) and c.args[1].value is None):
+            continue
+        if len(c.args) == 1 and c.func.attr == 'pop':
+            continue
+        env = env or uni.env(fi)
+        v = env.ev(c.func.value)
+        if not any(t[0] in DATA_LIKE or t[0] == 'fresh' and any(
+                x[0] in DATA_LIKE for x in v.c1 | v.deep)
+                for t in v.tags):
+            continue
+        # where does the looked-up value go?
+        par = getattr(c, '_parent', None)
+        tested = None
+        if isinstance(par, ast.Compare) and len(par.ops) == 1 and \
+                isinstance(par.ops[0], (ast.Is, ast.IsNot)) and \
+                isinstance(par.comparators[0], ast.Constant) and \
+                par.comparators[0].value is None and par.left is c:
+            tested = par
+        elif isinstance(par, ast.Assign) and len(par.targets) == 1 and \
+                isinstance(par.targets[0], ast.Name):
+            ts = _none_tests(fi.node, par.targets[0].id)
+            if ts and sum(1 for s2 in model.walk_shallow(fi.node)
+                          if isinstance(s2, ast.Assign) and any(
+                              isinstance(t, ast.Name) and
+                              t.id == par.targets[0].id
+                              for t in s2.targets)) == 1:
+                tested = ts[0]
+        if tested is not None:
+            out.append((model.norm(c.func.value), c, tested))
+    return out
+
+
+def check_absence_is_not_null(repo, rep, uni, scope, rule, floor_fixture,
+                              sentinels=True):
+    """Shared by C13 (R13c, the standard library) and C12 (R12h, argument
+    mapping)."""
+    n = 0
+    for fi in scope:
+        for name, st, test in (none_sentinel_sites(uni, fi) if sentinels
+                               else ()):
+            n += 1
+            rep.ob(rule, '%s/none-sentinel[%s]' % (fi.key, name), False,
+                   'local `%s` starts as None, is then bound to a value of '
+                   'the evaluation (`%s`) and `%s` is used to ask whether '
+                   'that has happened: null is a value of the language, so '
+                   'a null element / null result reads as "nothing yet" '
+                   '(use a marker object such as utils.NO_VALUE)' % (
+                       name, model.norm(st)[:50], model.norm(test)),
+                   loc=fi.module.loc(test), construct=model.norm(test))
+        for m, call, test in lookup_default_sites(uni, fi):
+            n += 1
+            rep.ob(rule, '%s/lookup-default[%s]' % (fi.key, m), False,
+                   '`%s` is compared with None to decide whether the key '
+                   'is present in a mapping of argument values: an '
+                   'argument whose value is null reads as an absent '
+                   'argument (test membership with `in`)' % model.norm(
+                       call), loc=fi.module.loc(test),
+                   construct=model.norm(test))
+    if floor_fixture:
+        from sa.rules import c09
+        m = c09.load_fixture(repo, 'c13_fixture.py')
+        repo.modules[m.name] = m
+        try:
+            flagged = set()
+            for f in m.functions.values():
+                if f.parent_func is None and (
+                        none_sentinel_sites(uni, f) or
+                        lookup_default_sites(uni, f)):
+                    flagged.add(f.name)
+        finally:
+            del repo.modules[m.name]
+        want = {'bad_none_sentinel', 'bad_lookup_default'}
+        rep.ob(rule, 'fixtures/c13_fixture.py/positive-control',
+               flagged == want,
+               'positive control: expected %s flagged and the ok_* '
+               'functions silent; flagged %s' % (sorted(want),
+                                                 sorted(flagged)))
+    return n
+
+
 def check_reiterable_premise(repo, rep):
     """R13b: R13a treats a name re-bound through memorize() as re-iterable.
     That holds only if every pass gets its own cursor: the class of the
@@ -385,6 +535,9 @@ def run(repo, rep):
              'to a consumer, returned) at most once, and never inside a '
              'loop, unless first re-bound to a re-iterable (memorize/tuple/'
              'to_list) or to an explicit cursor (iter())')
+    rep.rule('R13c', 'ABSENCE-IS-NOT-NULL: no local that means "nothing '
+             'yet" while it is None is bound to a value of the evaluation, '
+             'and no lookup-with-None-default is compared with None')
     rep.rule('R13b', 'RE-ITERABLE PREMISE: the object utils.memorize '
              'returns hands out a new cursor per __iter__ and keeps its '
              'position per instance (what R13a relies on when a parameter '
@@ -398,6 +551,11 @@ def run(repo, rep):
     uni = unimod.Universe(repo)
     cons = consume.Consumption(repo, uni)
     check_reiterable_premise(repo, rep)
+    scope = [f for f, r in uni.evaluation_time()
+             if f.module.name.startswith('yaql.standard_library')]
+    check_absence_is_not_null(repo, rep, uni, scope, 'R13c', True)
+    rep.ob('R13c', 'standard-library', True, '%d functions scanned' % len(
+        scope), nontrivial=True)
     seen = set()
     n = 0
     nev = 0
